@@ -119,6 +119,12 @@ def _transform_rule(ctx, out, qname, getter, elem_cls_mod, name):
         return
     # the callee is the same-named method one layer down
     tg = pat.call_targets(inf, call)
+    if not tg:
+        # receiver not typed (e.g. a lambda parameter): resolve through the element type of the collection
+        from verifkit.model import elem as elem_type
+        et = elem_type(inf.typeof(lp.iter))
+        for c in ctx.typer.classes_of(et):
+            tg += [f.qname for f in ctx.model.lookup(c, call.func.attr)]
     if not tg or not all(t.endswith("." + name) for t in tg):
         out.bad(qname, f"elements are transformed by {tg} instead of the same-named method", where=fn.where(call))
         return
